@@ -73,7 +73,7 @@ fn generate(rng: &mut Rng, deep: bool) -> Scn {
     let p_return = on(rng, 0.4);
     let jitter = on(rng, 0.5);
     let p_event = *rng.pick(&[0.15, 0.3, 0.5]);
-    let n_ops = if deep && rng.chance(0.33) { rng.range(40, 160) as usize } else { rng.range(3, 40) as usize };
+    let n_ops = if (deep && rng.chance(0.33)) || rng.chance(0.04) { rng.range(40, 160) as usize } else { rng.range(3, 40) as usize };
     let mut ops: Vec<(Op, &'static str)> = Vec::new();
     let mut cur = 0u8; // unknown initial state; only used for biasing
     let mut prev = 0u8;
